@@ -46,6 +46,8 @@ pub struct Obs {
     pub called: Vec<bool>,
     pub stream_polled: Vec<bool>,
     pub closed: bool,
+    /// how many items had been taken from publishers when the registration channel was closed
+    pub accepted_at_close: Option<usize>,
     pub last_sink_pending: bool,
     /// accepted.len() when each sink socket was enqueued / at the end of the first poll after that
     pub enq_at: Vec<usize>,
@@ -62,7 +64,7 @@ pub fn run_scenario(events: &[&str]) -> Obs {
     let mut segs: Vec<String> = vec![];
     let (mut nk, mut nt) = (0usize, 0usize);
     let mut first = true;
-    let mut o = Obs { line: String::new(), annotated: vec![], accepted: vec![], got: vec![], flushed: vec![], failed: vec![], dropped: vec![], stream_ended: vec![], panicked: None, done: false, last_w_empty: false, last_pending: false, max_inner: 0, called: vec![], stream_polled: vec![], closed: false, last_sink_pending: false, enq_at: vec![], adopt_by: vec![] };
+    let mut o = Obs { line: String::new(), annotated: vec![], accepted: vec![], got: vec![], flushed: vec![], failed: vec![], dropped: vec![], stream_ended: vec![], panicked: None, done: false, last_w_empty: false, last_pending: false, max_inner: 0, called: vec![], stream_polled: vec![], closed: false, accepted_at_close: None, last_sink_pending: false, enq_at: vec![], adopt_by: vec![] };
     let mut pending_adopt: Vec<usize> = vec![];
     for ev in events {
         if o.done || o.panicked.is_some() { o.annotated.push(ev.split('@').next().unwrap().to_string()); continue; }
@@ -85,6 +87,7 @@ pub fn run_scenario(events: &[&str]) -> Obs {
         } else if *ev == "close" {
             tx.close_channel();
             o.closed = true;
+            o.accepted_at_close = Some(o.accepted.len());
         } else if let Some(ms) = ev.strip_prefix('z') {
             // real time passes (the router has no clock of its own: nothing may depend on it)
             std::thread::sleep(std::time::Duration::from_millis(ms.parse().expect("z<ms>")));
@@ -226,6 +229,13 @@ pub fn monitor(o: &Obs, events: &[&str]) -> Result<(), String> {
                 }
             }
         }
+    }
+    // C16: bounded means bounded whatever the publishers do: once the channel is closed the router finishes with what it
+    // has taken; it does not go on forwarding for as long as publishers have messages ready (c16_pubsub_shutdown_completes
+    // counts polls of the router, none of which depends on a publisher running dry)
+    if let Some(at) = o.accepted_at_close {
+        let more = o.accepted.len() - at;
+        if more > 1024 { return Err(format!("C16: after the registration channel was closed the router took {more} more messages from its publishers{}: it finishes only when they run dry, so shutdown hangs on a topic whose publishers keep sending", if o.done { " before it finished" } else { " and has not finished" })); }
     }
     // C09: bounded work per step
     // … bounded by the data available: every scripted stream answer may cost a poll of its stream plus a
